@@ -22,6 +22,7 @@ META = {
                  'state coverage, def-use pairing of keyword and attribute, guard facts for may-raise sites',
 }
 META['text'] += ' (b, refined) what a printer prints depends on the state that determines equality of its type - read in the printer or, through helpers and field tables, visible in the interpreted result and path conditions; optional state (tzinfo, fold) is omitted only on paths that established it is None / 0; a pytz zone is printed by name only on paths that established that this expression equals the value.'
+META['text'] += ' Round 5: (h) the argument lists are built by the sequence builder: T+1 elements separated by single commas in every layout, T one past every size constant of the builder.'
 
 STATE = {
     'datetime': {'year', 'month', 'day', 'hour', 'minute', 'second', 'microsecond', 'tzinfo', 'fold'},
